@@ -120,11 +120,17 @@ impl CaretPos {
         CaretPos::new(1, 1)
     }
 
+    /// Position in a text of what is at this position in a fragment of that text which starts at
+    /// `offset`: only the first line of the fragment starts in the column of the offset.
     #[must_use]
     pub fn offset(self, offset: &CaretPos) -> CaretPos {
         CaretPos {
             line: self.line + offset.line - 1,
-            pos: self.pos + offset.pos - 1,
+            pos: if self.line == 1 {
+                self.pos + offset.pos - 1
+            } else {
+                self.pos
+            },
         }
     }
 
